@@ -147,6 +147,13 @@ func (p *Pipe) Bytes() []byte {
 	return append([]byte(nil), p.hist...)
 }
 
+// Len returns how many bytes have been written to this direction so far.
+func (p *Pipe) Len() int {
+	p.mu.Lock()
+	defer p.mu.Unlock()
+	return len(p.hist)
+}
+
 // ReadOffset returns how many bytes the reader has consumed.
 func (p *Pipe) ReadOffset() int {
 	p.mu.Lock()
